@@ -24,8 +24,9 @@ def run(ctx, prefix=PREFIX, features=FEATURES, bounds=BOUNDS, assume=ASSUME, key
     ctx.notes.append('states = harnesses verified (each an exhaustive symbolic state space); transitions = CBMC properties checked; all cover properties (reachability witnesses) satisfied: %s' % r['covers_ok'])
     if not r['covers_ok']: ctx.inconclusive.append('a reachability witness (kani::cover) was not satisfied: vacuous harness')
     if r['total'] != len(r['results']): ctx.inconclusive.append('kani verified %d harnesses, expected %d' % (r['total'], len(r['results'])))
-    for n, s in r['results'].items():
-        if s == 'ok': continue
+    failed = [n for n, s in sorted(r['results'].items()) if s != 'ok']
+    for n in failed[3:]: ctx.notes.append('harness %s also failed (counterexample not replayed: only the first three failing harnesses are replayed)' % n)
+    for n in failed[:3]:
         rep, gen, log = kanidrv.playback(n, features)
         if rep:
             ctx.validated += 1
